@@ -77,6 +77,7 @@ let () =
             (ln + 1) short (gi "leaked") (gi "further") bound (get "watchdog") end;
         if !why <> [] then begin
           incr mism; Printf.printf "MISMATCH %d %s :: %s\n" (ln + 1) short (String.concat " | " !why) end
+    | "STOP" :: _ -> Printf.printf "note: %s (the harness gave up enumerating)\n" line
     | [] -> ()
     | _ -> failwith ("unknown line: " ^ line)) lines;
   Printf.printf "SUMMARY cases=%d mismatches=%d violations=%d\n" !n !mism !viol
